@@ -78,7 +78,8 @@ pub fn run(args: &Args) -> Report {
                     t.text = format!("/* first line\n   second line\n   {} */", t.text.len());
                 }
             }
-            texts.push(render(&toks, &mut rng, Layout::Canonical, i % 9 == 4));
+            // a third of the documents with arbitrary line breaks between tokens (several elements may share a line)
+            texts.push(render(&toks, &mut rng, if i % 3 == 2 { Layout::Loose } else { Layout::Canonical }, i % 9 == 4));
         }
     }
     for (i, text) in texts.iter().enumerate() {
@@ -123,7 +124,8 @@ pub fn run(args: &Args) -> Report {
                     rep.fail("own-format", input.clone(), format!("text in the writer's own format is not reproduced: line {a}: {b}"));
                 }
                 // (c) edits on the reloaded own-format model
-                if i % 2 == 0 {
+                // (the line bookkeeping of the edit oracle needs one element per line: canonical layout only)
+                if i % 2 == 0 && (i % 3 != 2 || args.replay.is_some()) {
                     edits(&mut rep, &f2, &w, &input, &mut rng);
                 }
             }
